@@ -129,8 +129,24 @@ static Result run_c09(const Case &c) {
     }
     // 3. decode / reconstruct with the mutated fragment among the untouched rest
     if (!cons || differs_only_in_safe_bytes(f, orig)) {
+        // the verdict belongs to the list as a whole: it may not depend on where in the list the fragment sits (rot) or
+        // on which acceptable headers its companions carry (comp_ver: the others claim another release - before
+        // 1.2.0 without a metadata checksum, as those releases wrote them, or re-sealed)
+        std::vector<std::vector<uint8_t>> comp(n);
+        int64_t cv = c.get("comp_ver", 0);
+        for (int i = 0; i < n; i++) {
+            comp[i] = b.s.frags[i];
+            if (cv && i != fi) {
+                put32(&comp[i][ref::O_LIBVER], (uint32_t)cv);
+                if ((uint32_t)cv < ref::V120 && (c.get("comp_unsealed", 0))) put32(&comp[i][ref::O_MCRC], 0); else ref::reseal(comp[i].data(), c.get("legacy") != 0);
+                if (!ref::accept_consume(comp[i].data())) { comp[i] = b.s.frags[i]; cv = 0; }
+            }
+        }
+        if (cv) r.cls((uint32_t)cv < ref::V120 ? "companions_pre_1_2_0" : "companions_other_release");
         std::vector<const std::vector<uint8_t> *> frs;
-        for (int i = 0; i < n; i++) frs.push_back(i == fi ? &f : &b.s.frags[i]);
+        int rot = (int)(c.get("rot", 0) % n);
+        for (int j = 0; j < n; j++) { int i = (j + rot) % n; frs.push_back(i == fi ? &f : &comp[i]); }
+        if ((fi - rot + n) % n != 0) r.cls("mutated_not_first"); else r.cls("mutated_first");
         {
             FragSet fs; fs.build(frs, {});
             DecodeOut d = decode(b.in->desc, fs, b.s.fraglen, 0);
@@ -176,6 +192,13 @@ static Case gen_c09() {
     c.setl("ops", ops);
     c.set("reseal", weighted({5, 4, 2, 1, 1, 2, 2}));
     c.set("reseal_arg", pick(0, 4 * 255 - 1));
+    c.set("rot", pick(0, 31));
+    if (coin(1, 3)) {
+        uint32_t running = liberasurecode_get_version();
+        int64_t v = coin(2, 3) ? (((int64_t)1 << 16) | (pick(0, 1) << 8) | pick(0, 9)) : (int64_t)pick(ref::V120, running);
+        c.set("comp_ver", v);
+        c.set("comp_unsealed", coin(2, 3) ? 1 : 0);
+    }
     return c;
 }
 // all 640 single-bit flips (no reseal, and re-sealed std) for a set of base headers
@@ -283,6 +306,20 @@ static Result run_c10(const Case &c) {
         if ((inv != 0) != want_mismatch) r.fail(std::string("is_invalid_fragment=") + std::to_string(inv) + " but payload checksum " + (want_mismatch ? "mismatches" : "is intact") + " and everything else is valid");
         if (memcmp(fb.p, f.data(), f.size())) r.fail("validation modified the fragment");
     }
+    // "on any reader": the same fragment as a host of the other byte order stores it gets the same verdict
+    if (c.get("twin", 0)) {
+        std::vector<uint8_t> tw = f;
+        make_twin(tw.data(), legacy && (c.get("carg") & 1));
+        ExactBuf tb(tw);
+        fragment_metadata_t md; memset(&md, 0x55, sizeof md);
+        int rc = liberasurecode_get_fragment_metadata(tb.p, &md);
+        if (rc != 0) r.fail("get_fragment_metadata failed on the opposite-endian image rc=" + std::to_string(rc));
+        else {
+            if ((md.chksum_mismatch != 0) != want_mismatch) r.fail(std::string("opposite-endian image: chksum_mismatch=") + std::to_string(md.chksum_mismatch) + " but the reference says " + (want_mismatch ? "mismatch" : "intact"));
+            if (md.chksum[0] != stored) r.fail("opposite-endian image: metadata does not report the stored checksum");
+        }
+        r.cls(legacy ? "twin_legacy_crc" : "twin_standard_crc");
+    }
     set_env(0);
     bool high = false;
     for (size_t i = 0; i < paylen; i++) if (pay[i] >= 0x80) high = true;
@@ -299,6 +336,7 @@ static Case gen_c10() {
     c.set("renv", weighted({4, 1, 1, 3, 1}));
     c.set("via_reconstruct", coin(1, 3) ? 1 : 0);
     c.set("recenv", weighted({4, 1, 1, 3, 1}));
+    c.set("twin", coin(1, 3) ? 1 : 0);
     c.set("writer_ct", weighted({3, 2, 0, 1}));        // 0: same instance, 1: NONE-configured writer, 3: MD5-configured writer
     { Config g = cfg_from(c); int fi = (int)(c.get("frag") % g.n()); if (coin(1, 5) && fi < g.k) c.set("crc0", fi + 1); }
     c.set("ckind", weighted({2, 4, 2, 2, 2, 1}));
